@@ -132,31 +132,25 @@ Executable * IFStatement::parse_clause(Parser& p, Context& ctx, IFStatement * s)
 IFStatement * IFStatement::parse(Parser& p, Context& ctx)
 {
   IFStatement * s = new IFStatement();
+  /* the condition is owned here until the rule has been stored */
+  Expression * exp = nullptr;
   try
   {
     for (;;)
     {
-      Expression * exp = ParseExpression::expression(p, ctx);
+      exp = ParseExpression::expression(p, ctx);
       const Type& exp_type = exp->type(ctx);
       if (exp_type.level() > 0 ||
               (exp_type != Type::BOOLEAN && exp_type != Type::NO_TYPE))
-      {
-        delete exp;
         throw ParseError(EXC_PARSE_OTHER_S, "Boolean expression required for IF.");
-      }
       TokenPtr t = p.pop();
       if (t->code == ')')
-      {
-        delete exp;
         throw ParseError(EXC_PARSE_MM_PARENTHESIS, t);
-      }
       if (t->code != TOKEN_KEYWORD || t->text != KEYWORDS[STMT_THEN])
-      {
-        delete exp;
         throw ParseError(EXC_PARSE_OTHER_S, "Missing THEN keyword in IF statement.", t);
-      }
       Executable * exec = parse_clause(p, ctx, s);
       s->_rules.push_back(std::make_pair(exp, exec));
+      exp = nullptr;
       t = p.pop();
       if (t->text == KEYWORDS[STMT_ELSIF])
         continue; /* process next rule */
@@ -180,6 +174,7 @@ IFStatement * IFStatement::parse(Parser& p, Context& ctx)
   catch (ParseError& pe)
   {
     DBG(DBG_DEBUG, "exception %p at %s line %d\n", &pe, __PRETTY_FUNCTION__, __LINE__);
+    if (exp) delete exp;
     delete s;
     throw;
   }
